@@ -245,6 +245,38 @@ Lemma res_bind_eq {T U} (X : py_res T) (k : T -> py_res U) (v : T) : X = Ok v ->
   match X with Ok s => k s | Raise e => Raise e | OutOfFuel => OutOfFuel end = k v.
 Proof. intros ->. reflexivity. Qed.
 
+Lemma phr_irr_S I P tb f p0 r loads alloc c :
+  phr_irr (S f) I P tb (p0 :: r) loads alloc c =
+  match phr_round I P tb loads (p0 :: r) c with
+  | RStop => Some [alloc]
+  | RPick tied t => opt_concat (map (fun p => phr_irr f I P tb (remove_proj p (p0 :: r)) (apply_load P loads p t)
+                                                (alloc ++ [p]) (Qred (c + cost I p))) tied)
+  end.
+Proof. reflexivity. Qed.
+
+Lemma opt_concat_map_mono {A B} (g g' : A -> option (list B)) (l : list A) w :
+  (forall p a, In p l -> g p = Some a -> g' p = Some a) ->
+  opt_concat (map g l) = Some w -> opt_concat (map g' l) = Some w.
+Proof.
+  revert w. induction l as [|x l IH]; intros w H E; [exact E|]. cbn [map opt_concat] in *.
+  destruct (g x) as [a|] eqn:Ea; [|discriminate]. destruct (opt_concat (map g l)) as [b|] eqn:Eb; [|discriminate].
+  rewrite (H x a (or_introl eq_refl) Ea), (IH b); [exact E| |reflexivity].
+  intros p a' Hp. apply H. right. exact Hp.
+Qed.
+
+Lemma phr_irr_mono I P tb : forall f projs loads alloc c W,
+  phr_irr f I P tb projs loads alloc c = Some W -> phr_irr (S f) I P tb projs loads alloc c = Some W.
+Proof.
+  induction f as [|f IH]; intros projs loads alloc c W H; (destruct projs as [|p0 r]; [exact H|]); rewrite phr_irr_S.
+  - cbn [phr_irr] in H. destruct (phr_round I P tb loads (p0 :: r) c); [exact H|discriminate].
+  - rewrite phr_irr_S in H. destruct (phr_round I P tb loads (p0 :: r) c) as [|tied t]; [exact H|].
+    eapply opt_concat_map_mono; [|exact H]. intros p a _ Hp. apply IH. exact Hp.
+Qed.
+
+Lemma phr_irr_mono_le I P tb f f' projs loads alloc c W : (f <= f')%nat ->
+  phr_irr f I P tb projs loads alloc c = Some W -> phr_irr f' I P tb projs loads alloc c = Some W.
+Proof. intros Hle. induction Hle as [|f'' Hle IH]; [auto|]. intros H0. apply phr_irr_mono. auto. Qed.
+
 (* the tie-breaking rule is only consulted when there is a tie: on at most one project the order is the identity *)
 Lemma tie_order_short (tb : proj -> Q) (l : list proj) :
   (if py_nat_lt 1 (length l) then tb_order_of_key tb l else l) = tb_order_of_key tb l.
@@ -270,6 +302,31 @@ Proof.
 Qed.
 
 (* one call of the generated inner function against one step of the model's recursion *)
+(* use the result E : <call> = Ok v of a recursive call inside the goal (the call is a `fix` applied to a successor:
+   rewriting with E would unfold it, so the call is generalised instead) *)
+Ltac phr_use_call E :=
+  match type of E with
+  | _ = Ok ?v =>
+      match goal with
+      | |- context [match ?X with _ => _ end] =>
+          lazymatch type of X with py_res _ => idtac end;
+          let H := fresh "H" in
+          assert (H : X = Ok v) by exact E;
+          revert H; generalize X;
+          let xx := fresh "xx" in let Hxx := fresh "Hxx" in
+          intros xx Hxx; subst xx
+      end
+  end; cbv beta iota.
+
+(* `alloc.sort(); if alloc not in allocs: allocs.append(alloc)` *)
+Definition add_leaf (acc : list (list proj)) (W : list proj) : list (list proj) :=
+  if py_alloc_in (name_sort W) acc then acc else acc ++ [name_sort W].
+
+Ltac phr_leaf_irr Hres :=
+  unfold py_sorted_projects; injection Hres as <-; cbn [fold_left]; unfold add_leaf;
+  match goal with |- context [py_alloc_in ?a ?l] => destruct (py_alloc_in a l) end; cbn [negb];
+  do 3 eexists; reflexivity.
+
 Ltac phr_leaf Hres :=
   unfold py_sorted_projects, py_alloc_in; cbn [existsb negb app];
   injection Hres as <-; eexists; eexists; reflexivity.
@@ -277,14 +334,18 @@ Ltac phr_leaf Hres :=
 Ltac phr_step V0 HV0 IH last :=
   lazymatch goal with
   | Hl : length ?loads = length P, HV : Forall2 vrel ?voters (combine P ?loads), Hc : ?cg == ?c,
-    Hndp : NoDup ?projs, Hres : phr_res ?f I P ?tb ?projs ?loads ?alloc ?c = Some ?W1 |- _ =>
-    lazymatch last with true => idtac | _ => remember f as f1 in |- * end;
+    Hndp : NoDup ?projs, Hres : ?RUN ?f I P ?tb ?projs ?loads ?alloc ?c = Some ?W1 |- _ =>
+    lazymatch last with true => idtac | 2%nat => idtac | _ => remember f as f1 in |- * end;
     cbv beta iota fix;
     destruct projs as [|p0 r];
     [ (* no project left *)
-      unfold py_nat_eq; cbn [length Nat.eqb];
-      assert (Hres' : Some alloc = Some W1) by (destruct f; exact Hres); phr_leaf Hres'
-    | unfold py_nat_eq; cbn [length Nat.eqb];
+      unfold py_nat_eq, py_is_empty; cbn [length Nat.eqb negb]; cbv iota; cbn [negb]; cbv iota;
+      lazymatch last with
+      | true => assert (Hres' : Some alloc = Some W1) by (destruct f; exact Hres); phr_leaf Hres'
+      | false => assert (Hres' : Some alloc = Some W1) by (destruct f; exact Hres); phr_leaf Hres'
+      | _ => assert (Hres' : Some [alloc] = Some W1) by (destruct f; exact Hres); phr_leaf_irr Hres'
+      end
+    | unfold py_nat_eq, py_is_empty; cbn [length Nat.eqb negb]; cbv iota; cbn [negb]; cbv iota;
       assert (HlenV : length voters = length P) by
         (rewrite (Forall2_len _ _ _ HV), combine_length, Hl, Nat.min_id; reflexivity);
       assert (HlenV0 : length V0 = length P) by (rewrite <- HV0 at 2; rewrite map_length; reflexivity);
@@ -368,6 +429,85 @@ Ltac phr_step V0 HV0 IH last :=
                  (Qred (c + cost I sel)) W1) as [pr [vo E]];
     [ exact Hl | exact HV | rewrite Qred_correct, Hc; reflexivity | apply remove_proj_NoDup; exact Hndp | exact Hres
     | match goal with Hf1 : ?vv = S _ |- _ => subst vv end; eexists; eexists; refine (eq_trans (res_bind_eq _ _ _ E) _); reflexivity ] ])
+      | 2%nat => (cbn [phr_irr] in Hres; (unfold phr_round in Hres; rewrite Emod in Hres; fold arg in Hres);
+  destruct (existsb (overshoots I c) arg); [phr_leaf_irr Hres|discriminate])
+      | 3%nat => (lazymatch f with S ?fp => rewrite phr_irr_S in Hres; (unfold phr_round in Hres; rewrite Emod in Hres; fold arg in Hres);
+  destruct (existsb (overshoots I c) arg); [phr_leaf_irr Hres|];
+  rewrite ?tie_order_short; unfold tb_order_of_key, py_sorted_projects;
+  match goal with Hf1 : ?vv = S _ |- _ => subst vv end;
+  assert (Harg_in : forall s, In s (tie_order tb (name_sort arg)) -> In s arg) by
+    (intros s Hs; apply name_sort_In, (tie_order_In tb); exact Hs);
+  revert Harg_in Hres; generalize (tie_order tb (name_sort arg)) as tied; intros tied Harg_in Hres;
+  destruct m as [x'|], mg as [x|]; cbn in Hbest; try contradiction;
+  [ (* finite new maximum load *)
+    match goal with
+    | |- exists pr vo al, match py_for ?LOOP tied ?acc0 with _ => _ end = _ =>
+        assert (Hloop : forall tll acc lv, (forall s, In s tll -> In s arg) ->
+                  opt_concat (map (fun p => phr_irr fp I P tb (remove_proj p (p0 :: r)) (apply_load P loads p (Fin x'))
+                                               (alloc ++ [p]) (Qred (c + cost I p))) tll) = Some lv ->
+                  py_for LOOP tll acc = inl (fold_left add_leaf lv acc));
+    [ intros tll; induction tll as [|sel tll IHtl]; intros acc lv Hin Hoc;
+      [ cbn in Hoc; injection Hoc as <-; reflexivity
+      | cbn [map opt_concat] in Hoc;
+        destruct (phr_irr fp I P tb (remove_proj sel (p0 :: r)) (apply_load P loads sel (Fin x')) (alloc ++ [sel])
+                          (Qred (c + cost I sel))) as [la|] eqn:Ea; [|discriminate];
+        destruct (opt_concat (map (fun p => phr_irr fp I P tb (remove_proj p (p0 :: r)) (apply_load P loads p (Fin x'))
+                                             (alloc ++ [p]) (Qred (c + cost I p))) tll)) as [lb|] eqn:Eb; [|discriminate];
+        injection Hoc as <-;
+        assert (Hselp : In sel (p0 :: r) /\ Qx_eqb (Fin x') (new_maxload I P loads sel) = true) by
+          (apply (proj1 (filter_In (fun q => Qx_eqb (Fin x') (new_maxload I P loads q)) sel (p0 :: r)));
+           apply Hin; left; reflexivity);
+        rewrite py_for_cons; cbv beta iota; cbn [py_finite];
+        erewrite (upd_loop_fin _ sel x);
+          [|intros acc' v; unfold upd_voter, v_ballot, v_mult; destruct (approves (fst (fst v)) sel); reflexivity];
+        cbn [app]; rewrite (py_remove_proj _ sel Hndp (proj1 Hselp));
+        destruct (IH (remove_proj sel (p0 :: r)) (map (upd_voter sel x) voters) (apply_load P loads sel (Fin x'))
+                     (alloc ++ [sel]) (cg + py_cost I sel) (Qred (c + cost I sel)) acc la) as [pr [vo [al E]]];
+        [ cbn [apply_load]; symmetry; apply set_loads_length; symmetry; exact Hl
+        | cbn [apply_load]; unfold set_loads; rewrite combine_map_snd by exact Hl;
+          apply (Forall2_map2 vrel vrel); [intros a b Hab; apply upd_voter_rel; assumption|exact HV]
+        | rewrite Qred_correct, Hc; reflexivity
+        | apply remove_proj_NoDup; exact Hndp
+        | exact Ea
+        | phr_use_call E; rewrite fold_left_app;
+          apply IHtl; [intros s Hs; apply Hin; right; exact Hs|first [exact Eb|reflexivity]] ] ]
+    | rewrite (Hloop tied _ W1 Harg_in Hres); do 3 eexists; reflexivity ]
+    end
+  | (* infinite: nobody approves a tied project *)
+    match goal with
+    | |- exists pr vo al, match py_for ?LOOP tied ?acc0 with _ => _ end = _ =>
+        assert (Hloop : forall tll acc lv, (forall s, In s tll -> In s arg) ->
+                  opt_concat (map (fun p => phr_irr fp I P tb (remove_proj p (p0 :: r)) (apply_load P loads p PInf)
+                                               (alloc ++ [p]) (Qred (c + cost I p))) tll) = Some lv ->
+                  py_for LOOP tll acc = inl (fold_left add_leaf lv acc));
+    [ intros tll; induction tll as [|sel tll IHtl]; intros acc lv Hin Hoc;
+      [ cbn in Hoc; injection Hoc as <-; reflexivity
+      | cbn [map opt_concat] in Hoc;
+        destruct (phr_irr fp I P tb (remove_proj sel (p0 :: r)) (apply_load P loads sel PInf) (alloc ++ [sel])
+                          (Qred (c + cost I sel))) as [la|] eqn:Ea; [|discriminate];
+        destruct (opt_concat (map (fun p => phr_irr fp I P tb (remove_proj p (p0 :: r)) (apply_load P loads p PInf)
+                                             (alloc ++ [p]) (Qred (c + cost I p))) tll)) as [lb|] eqn:Eb; [|discriminate];
+        injection Hoc as <-;
+        assert (Hselp : In sel (p0 :: r) /\ Qx_eqb PInf (new_maxload I P loads sel) = true) by
+          (apply (proj1 (filter_In (fun q => Qx_eqb PInf (new_maxload I P loads q)) sel (p0 :: r)));
+           apply Hin; left; reflexivity);
+        rewrite py_for_cons; cbv beta iota;
+        erewrite (upd_loop_none _ sel);
+          [ | intros acc' v Hv; unfold v_ballot in Hv; rewrite Hv; reflexivity
+            | intros v Hv; destruct (approves (v_ballot v) sel) eqn:Eap; [exfalso|reflexivity];
+              destruct (Forall2_In_l _ _ _ _ HV Hv) as [bx [Hbx [Hb _]]];
+              assert (Hsc : 0 < score P sel) by
+                (apply (score_pos sel (fst bx)); [destruct bx as [b0 x0]; apply (in_combine_l _ _ _ _ Hbx)|rewrite <- Hb; exact Eap]);
+              destruct Hselp as [_ Hinf]; unfold new_maxload in Hinf;
+              destruct (Qeqb (score P sel) 0) eqn:Ez; [apply Qeqb_iff in Ez; lra|cbn in Hinf; discriminate] ];
+        cbn [app]; rewrite (py_remove_proj _ sel Hndp (proj1 Hselp));
+        destruct (IH (remove_proj sel (p0 :: r)) voters loads (alloc ++ [sel]) (cg + py_cost I sel)
+                     (Qred (c + cost I sel)) acc la) as [pr [vo [al E]]];
+        [ exact Hl | exact HV | rewrite Qred_correct, Hc; reflexivity | apply remove_proj_NoDup; exact Hndp | exact Ea
+        | phr_use_call E; rewrite fold_left_app;
+          apply IHtl; [intros s Hs; apply Hin; right; exact Hs|first [exact Eb|reflexivity]] ] ]
+    | rewrite (Hloop tied _ W1 Harg_in Hres); do 3 eexists; reflexivity ]
+    end ] end)
       end
     ]
   end.
@@ -436,6 +576,87 @@ Proof.
   1,3: phr_sim_proof.
   all: phr_use.
 Qed.
+Lemma add_leaf_dedup : forall (l : list (list proj)) acc seen,
+  (forall W, py_alloc_in W acc = memb_nl W seen) ->
+  fold_left add_leaf l acc = acc ++ dedup_nl seen (map name_sort l).
+Proof.
+  induction l as [|W l IH]; intros acc seen H; [cbn; rewrite app_nil_r; reflexivity|].
+  cbn [fold_left map dedup_nl].
+  change (add_leaf acc W) with (if py_alloc_in (name_sort W) acc then acc else acc ++ [name_sort W]). rewrite H.
+  destruct (memb_nl (name_sort W) seen) eqn:E.
+  - apply IH. exact H.
+  - rewrite (IH (acc ++ [name_sort W]) (name_sort W :: seen)).
+    + rewrite <- app_assoc. reflexivity.
+    + intros X. unfold py_alloc_in, memb_nl in *. rewrite existsb_app. cbn [existsb]. rewrite H, orb_false_r.
+      apply orb_comm.
+Qed.
+
+Ltac phr_sim_proof_irr :=
+  lazymatch goal with
+  | HV0 : map v_ballot ?V0 = _ |- _ =>
+      let f0 := fresh "f0" in
+      intro f0; induction f0 as [|f IH]; intros projs voters loads alloc cg c allocs W1 Hl HV Hc Hndp Hres;
+      [ phr_step V0 HV0 Logic.I 2%nat | phr_step V0 HV0 IH 3%nat ]
+  end.
+
+Ltac phr_use_irr :=
+  lazymatch goal with
+  | Hsim : (forall f projs voters loads alloc cg c allocs W1, _),
+    Em : phr_irr (S (length ?pr)) _ _ ?tb ?pr ?lo ?ini ?cc = Some ?W0,
+    Hl0 : length ?lo = length _,
+    Hnd : NoDup ?en,
+    Hf : (?fu > length ?pr)%nat
+    |- match ?F ?fu ?pr ?V0 ?ini ?c0 [] with _ => _ end = _ =>
+      let f := fresh "f" in
+      destruct fu as [|f]; [exfalso; lia|];
+      assert (Emf : phr_irr f I P tb pr lo ini cc = Some W0);
+      [ destruct (phr_irr_total I P tb (length pr) pr lo ini cc) as [W' E']; [lia|];
+        assert (W' = W0) by
+          (apply (phr_irr_mono_le I P tb (length pr) (S (length pr))) in E'; [congruence|lia]);
+        subst W'; apply (phr_irr_mono_le I P tb (length pr) f); [lia|exact E']
+      | assert (Hndp : NoDup pr) by (apply NoDup_filter; exact Hnd);
+        destruct (Hsim f pr V0 lo ini c0 cc [] W0 Hl0 (mkv_rel P lo) (Qeq_refl _) Hndp Emf) as [x [y [z E]]];
+        refine (eq_trans (res_bind_eq _ _ _ E) _); cbv beta iota;
+        rewrite (add_leaf_dedup W0 [] []) by reflexivity; reflexivity ]
+  end.
+
+Theorem gen_phragmen_irr_eq oloads oinit otb enum fuel Ws :
+  NoDup enum ->
+  match oloads with Some l => length l = length P | None => True end ->
+  phragmen_irr I P (match otb with None => tb_lexico | Some t => t end) enum
+               (match oloads with None => zero_loads P | Some l => l end) (alloc_or_empty oinit) = Some Ws ->
+  (fuel > length (phr_projects I enum (alloc_or_empty oinit)))%nat ->
+  gen_sequential_phragmen_irr I P oloads oinit otb enum fuel = Ok Ws.
+Proof.
+  intros Hnd Hlen Hm Hf. unfold gen_sequential_phragmen_irr. cbv beta iota zeta.
+  repeat (erewrite py_for_append_map; cbv beta iota; cbn [app]).
+  change py_name with tb_lexico.
+  set (tb := match otb with Some t => t | None => tb_lexico end) in *.
+  change (match oinit with Some a => a | None => [] end) with (alloc_or_empty oinit).
+  set (init := alloc_or_empty oinit) in *.
+  repeat match goal with |- context [filter ?f enum] => change (filter f enum) with (phr_projects I enum init) end.
+  set (projs0 := phr_projects I enum init) in *.
+  unfold phragmen_irr in Hm. fold projs0 in Hm.
+  set (loads0 := match oloads with Some l => l | None => zero_loads P end) in *.
+  destruct (phr_irr (S (length projs0)) I P tb projs0 loads0 init (tcost I init)) as [W0|] eqn:Em; [|discriminate].
+  cbn [option_map] in Hm. injection Hm as <-.
+  assert (Hl0 : length loads0 = length P).
+  { destruct oloads; [exact Hlen|unfold loads0, zero_loads; apply map_length]. }
+  destruct oloads as [l|];
+    [ erewrite (all_some_voters P l); [|exact Hlen|intros i b; reflexivity] | rewrite !mkv_zero ].
+  all: fold loads0.
+  all: lazymatch goal with
+  | |- match ?F ?fu0 ?pr0 ?V0 ?in0 ?c0 [] with _ => _ end = _ =>
+      assert (HV0 : map v_ballot V0 = P) by (apply mkv_ballots; exact Hl0);
+      assert (Hsim : forall f projs voters loads alloc cg c allocs W1,
+                length loads = length P -> Forall2 vrel voters (combine P loads) -> cg == c -> NoDup projs ->
+                phr_irr f I P tb projs loads alloc c = Some W1 ->
+                exists pr vo al, F (S f) projs voters alloc cg allocs = Ok (pr, vo, al, fold_left add_leaf W1 allocs))
+  end.
+  1,3: phr_sim_proof_irr.
+  all: phr_use_irr.
+Qed.
+
 End PhragmenRes.
 
 (* with the model's totality: for every input the resolute rule returns, and returns the model's answer *)
@@ -451,6 +672,20 @@ Proof.
   destruct (proj1 (phragmen_total I P (match otb with None => tb_lexico | Some t => t end) enum
                      (match oloads with None => zero_loads P | Some l => l end) (alloc_or_empty oinit))) as [W E].
   exists W. split; [exact E|]. apply gen_phragmen_res_eq; assumption.
+Qed.
+
+Corollary gen_phragmen_irr_total (I : inst) (P : list aballot) oloads oinit otb enum fuel :
+  Forall (fun b => (0 < amul b)%nat) P -> NoDup enum ->
+  match oloads with Some l => length l = length P | None => True end ->
+  (fuel > length (phr_projects I enum (alloc_or_empty oinit)))%nat ->
+  exists Ws, phragmen_irr I P (match otb with None => tb_lexico | Some t => t end) enum
+                          (match oloads with None => zero_loads P | Some l => l end) (alloc_or_empty oinit) = Some Ws /\
+             gen_sequential_phragmen_irr I P oloads oinit otb enum fuel = Ok Ws.
+Proof.
+  intros Hm Hnd Hl Hf.
+  destruct (proj2 (phragmen_total I P (match otb with None => tb_lexico | Some t => t end) enum
+                     (match oloads with None => zero_loads P | Some l => l end) (alloc_or_empty oinit))) as [W E].
+  exists W. split; [exact E|]. apply gen_phragmen_irr_eq; assumption.
 Qed.
 
 Lemma alias_phragmen_res : py_inputs_untouched gen_alias_sequential_phragmen_res = true.
